@@ -115,8 +115,93 @@ static void inplace_tail_case(uint64_t N, MODULE_TYPE mt, int native, int which,
   case_end(1);
 }
 
+// chained calls in which a buffer changes role: what was the scratch of the first call holds a SOURCE of the second call
+// (buffer pools do this all the time), while the other operands keep their addresses and contents. The second call must
+// leave that source untouched and return what it returns with fresh buffers.
+static void role_rotation_case(uint64_t N, int native, unsigned rep) {
+  char key[96];
+  snprintf(key, sizeof key, "chained calls|former scratch holds a source%s", native ? "" : ",generic");
+  if (!case_begin(key, "N=%" PRIu64 " rep=%u", N, rep)) return;
+  rng_t* r = crng();
+  const MODULE* mod = get_module(N, FFT64, native);
+  const uint64_t nrows = 1 + rng_u64(r) % 3, ncols = 1 + rng_u64(r) % 3, rs = ncols;
+  const size_t pmb = bytes_of_vmp_pmat(mod, nrows, ncols), tb = vmp_apply_dft_tmp_bytes(mod, rs, nrows, nrows, ncols), tb2 = vmp_apply_dft_to_dft_tmp_bytes(mod, rs, nrows, nrows, ncols);
+  const size_t tpb = vmp_prepare_contiguous_tmp_bytes(mod, nrows, ncols), idb = vec_znx_idft_tmp_bytes(mod), rdb = bytes_of_vec_znx_dft(mod, rs);
+  size_t wb = pmb;
+  if (tb > wb) wb = tb;
+  if (tb2 > wb) wb = tb2;
+  if (idb > wb) wb = idb;
+  if (rdb > wb) wb = rdb;
+  gbuf_t gw, gt, gp1, gp2, gr1, gr2, gr3, ga, gad;
+  uint8_t* W = gb_alloc(&gw, wb + 64, 8, 8 * (rep % 8), 4096);
+  uint8_t* tmp = gb_alloc(&gt, (tb > tb2 ? tb : tb2) + tpb + idb + 64, 8, 8, 4096);
+  VMP_PMAT* p1 = gb_alloc(&gp1, pmb, 8, 16, 4096);
+  VMP_PMAT* p2 = gb_alloc(&gp2, pmb, 8, 24, 4096);
+  VEC_ZNX_DFT* r1 = gb_alloc(&gr1, rdb, 8, 0, 4096);
+  VEC_ZNX_DFT* r2 = gb_alloc(&gr2, rdb, 8, 8, 4096);
+  VEC_ZNX_DFT* r3 = gb_alloc(&gr3, rdb, 8, 16, 4096);
+  int64_t* a = gb_alloc(&ga, nrows * N * 8, 8, 8, 4096);
+  VEC_ZNX_DFT* ad = gb_alloc(&gad, bytes_of_vec_znx_dft(mod, nrows), 8, 8, 4096);
+  int64_t* m1 = malloc(nrows * ncols * N * 8);
+  int64_t* m2 = malloc(nrows * ncols * N * 8);
+  for (uint64_t i = 0; i < nrows * ncols * N; i++) {
+    m1[i] = rng_range(r, -30, 30);
+    m2[i] = rng_range(r, -30, 30);
+  }
+  for (uint64_t i = 0; i < nrows * N; i++) a[i] = rng_range(r, -1000, 1000);
+  vmp_prepare_contiguous(mod, p1, m1, nrows, ncols, tmp);
+  vmp_prepare_contiguous(mod, p2, m2, nrows, ncols, tmp);
+  vec_znx_dft(mod, ad, nrows, a, nrows, N);
+  for (int variant = 0; variant < 2; variant++) {  // 0: from integer coefficients, 1: from the DFT of the vector
+    // reference for the second product, with buffers that play one role only
+    if (variant == 0) vmp_apply_dft(mod, r3, rs, a, nrows, N, p2, nrows, ncols, tmp);
+    else vmp_apply_dft_to_dft(mod, r3, rs, ad, nrows, p2, nrows, ncols, tmp);
+    // call 1: W is the scratch
+    if (variant == 0) vmp_apply_dft(mod, r1, rs, a, nrows, N, p1, nrows, ncols, W);
+    else vmp_apply_dft_to_dft(mod, r1, rs, ad, nrows, p1, nrows, ncols, W);
+    // W now receives the second prepared matrix: it is a source of call 2, whose scratch lives elsewhere
+    memcpy(W, p2, pmb);
+    snap_t sw;
+    snap_take(&sw, W, pmb);
+    if (variant == 0) vmp_apply_dft(mod, r2, rs, a, nrows, N, (VMP_PMAT*)W, nrows, ncols, tmp);
+    else vmp_apply_dft_to_dft(mod, r2, rs, ad, nrows, (VMP_PMAT*)W, nrows, ncols, tmp);
+    long d;
+    if ((d = snap_cmp_free(&sw)) >= 0) viol("snapshot", "%s: the prepared matrix of the second call (stored where the first call's scratch was) was modified at byte %ld (N=%" PRIu64 " %s)", variant ? "vmp_apply_dft_to_dft" : "vmp_apply_dft", d, N, native ? "native" : "generic");
+    if (memcmp(r2, r3, rdb)) viol("differential", "%s: second product of a chain (its matrix stored in the first call's former scratch) differs from the same product with fresh buffers (N=%" PRIu64 ")", variant ? "vmp_apply_dft_to_dft" : "vmp_apply_dft", N);
+    cnt("role_rotation_calls", 2);
+  }
+  // inverse DFT: the former scratch becomes the DFT source of the next inverse DFT
+  {
+    VEC_ZNX_BIG* b1 = (VEC_ZNX_BIG*)r1;
+    vec_znx_idft(mod, b1, rs, r3, rs, W);  // r3 -> big (W = scratch)
+    memcpy(W, r3, rdb);
+    snap_t sw;
+    snap_take(&sw, W, rdb);
+    vec_znx_idft(mod, (VEC_ZNX_BIG*)r2, rs, (VEC_ZNX_DFT*)W, rs, tmp);
+    long d;
+    if ((d = snap_cmp_free(&sw)) >= 0) viol("snapshot", "vec_znx_idft: its DFT source (stored where the previous call's scratch was) was modified at byte %ld (N=%" PRIu64 ")", d, N);
+    if (memcmp(r2, b1, bytes_of_vec_znx_big(mod, rs))) viol("differential", "vec_znx_idft: second inverse DFT of a chain differs from the first one on the same spectrum (N=%" PRIu64 ")", N);
+    cnt("role_rotation_calls", 2);
+  }
+  long wh;
+  gbuf_t* gs[] = {&gw, &gt, &gp1, &gp2, &gr1, &gr2, &gr3, &ga, &gad};
+  for (size_t g = 0; g < ARRAY_LEN(gs); g++) {
+    if (gb_check(gs[g], &wh)) viol("canary", "chained calls wrote outside a buffer (%ld)", wh);
+    gb_free(gs[g]);
+  }
+  free(m1);
+  free(m2);
+  cnt("source_bytes_compared", 2 * pmb + rdb);
+  sample("two products and two inverse DFTs in a row with the scratch of one call holding a source of the next");
+  case_end(1);
+}
+
 void run_C18(void) {
   const int th = G.thorough;
+  if (!ro_available())
+    for (size_t ni = 0; ni < N_ALL_N; ni++)
+      for (int native = 1; native >= 0; native--)
+        for (unsigned rep = 0; rep < (th ? 20u : (ALL_N[ni] <= 4096 ? 3u : 1u)); rep++) role_rotation_case(ALL_N[ni], native, rep);
   if (!ro_available()) {
     unsigned ctr = 0;
     for (size_t ni = 0; ni < N_ALL_N; ni++)
